@@ -715,10 +715,50 @@ def canon_expr(body, o, names=None):
     return canon_fmt(e, names)
 
 
+CANON_V3 = os.environ.get('VERIF_PO_CANON', 'new') not in ('old', 'v2')
+
+
+def _var(names, text):
+    """positional variable for an opaque leaf (alpha-renamed per key later)"""
+    tab = names.setdefault('#opaque', {})
+    if text not in tab:
+        tab[text] = 'v%d' % (1000 + len(tab))
+    return tab[text]
+
+
+def _is_iter_payload(e):
+    """(X::next(..) as Some).0[.k]* - the loop variable of a `for` over any iterator"""
+    while isinstance(e, tuple) and e[0] in ('field', 'deref', 'ref'):
+        e = e[1]
+    if isinstance(e, tuple) and e[0] == 'downcast' and e[2] == 'Some':
+        c = e[1]
+        while isinstance(c, tuple) and c[0] in ('deref', 'ref'):
+            c = c[1]
+        return isinstance(c, tuple) and c[0] == 'call' and (c[1] or '').rsplit('::', 1)[-1] in ('next', 'next_back')
+    return False
+
+
+def _is_temp_projection(e, names):
+    """t.0 / (t as V).0: projections of a local that could not be resolved to an expression"""
+    while isinstance(e, tuple) and e[0] in ('field', 'deref', 'ref', 'downcast', 'cindex'):
+        e = e[1]
+    return isinstance(e, tuple) and e[0] == 'local' and e[1] not in names
+
+
 def canon_fmt(e, names):
     if not isinstance(e, tuple):
         return str(e)
     k = e[0]
+    if CANON_V3 and k in ('field', 'deref', 'ref', 'downcast', 'local', 'cindex'):
+        # loop variables and values of locals assigned on several paths are opaque variables: how a loop variable is
+        # produced (range, enumerate, zip) or how a two-armed value is carried (tuple field, deferred `let`) is not
+        # part of the obligation's identity
+        if _is_iter_payload(e):
+            return _var(names, fmt(e))
+        if k != 'local' and _is_temp_projection(e, names):
+            return _var(names, fmt(e))
+        if k == 'local' and e[1] not in names:
+            return _var(names, fmt(e))
     if k == 'local':
         return names.get(e[1], 't')
     if k == 'const':
@@ -822,7 +862,7 @@ def obligations_in_context(facts, body, keep=None):
 
 
 def _po_policy(facts, caller, callee, keep):
-    return callee.kind in ('Fn', 'AssocFn') and not (keep is not None and keep(callee.path)) and len(callee.blocks) <= 120
+    return callee.kind in ('Fn', 'AssocFn', 'Closure') and not (keep is not None and keep(callee.path)) and len(callee.blocks) <= 120
 
 
 def scan(facts, bodies, known, field_inv=None):
@@ -841,7 +881,7 @@ def scan(facts, bodies, known, field_inv=None):
     covered = set()
     later = []
     for b in bodies:
-        if b.path not in known and b.kind in ('Fn', 'AssocFn'):
+        if b.path not in known and b.kind in ('Fn', 'AssocFn', 'Closure'):
             later.append(b)
             continue
         nb = inline.inlined(facts, b, keep, policy=_po_policy)
